@@ -313,6 +313,7 @@ def _eval_phase(m, content, case):
                 ent["exec"] = exec_py(ent["text"], states)
             continue
         ent["shape"] = text_shape(P)
+        ent["lines"] = [[k, v] for k, _, v in P["assigns"]]
         ent["trees"] = [[k, repr(cg.strip_ann(e))] for k, e, _ in P["assigns"]]
         ent["rs_mix"] = lang == "rs" and any(cg.int_float_mix(e) or (e[0] == "num" and e[2]) for _, e, _ in P["assigns"])
         runs = []
@@ -601,6 +602,24 @@ def evaluate(cases, use_driver=True):
                 Ms[i][ph] = r
             else:
                 Ms[i] = r
+        # the right-hand sides of every emitted text, read by the Lean expression reader (Mxl.C07Expr.runLines) at the
+        # first state: a third reading of the real text next to exec / the Python-side evaluator
+        ereqs, ewhere = [], []
+        for i, (c, R) in enumerate(zip(cases, Rs)):
+            if c.get("oracle_only") or "langs" not in R or not c["states"]:
+                continue
+            t, xs, ps = c["states"][0]
+            for lang, ent in R["langs"].items():
+                if "lines" not in ent or "shape" not in ent:
+                    continue
+                sh = ent["shape"]
+                if len(sh["inputs"]) != len(xs) or len(sh["extra"]) != len(ps):
+                    continue
+                env = [["time", t]] + [[k, v] for k, v in zip(sh["extra"], ps)] + [[k, v] for k, v in zip(sh["inputs"], xs)]
+                ereqs.append({"op": "c07", "exprLines": ent["lines"], "jl": lang == "jl", "env": env})
+                ewhere.append((i, lang))
+        for (i, lang), r in zip(ewhere, driver.call_batch(ereqs) if ereqs else []):
+            Rs[i]["langs"][lang]["lean_expr"] = r
     return list(zip(Rs, Ms))
 
 
@@ -692,6 +711,44 @@ def judge_oracle_only(ctx, case, R, extern=None):
                   what="ts: generated code run by node vs model (oracle-only stratum)")
 
 
+def judge_lean_expr(ctx, sc, lang, ent, tag=""):
+    """the Lean reader of the emitted right-hand sides (C07_expr_text_value / _unambiguous are about it) against the
+    Python-side evaluator of the same text, at the first state; and: do the parentheses of the text coincide with the
+    ones the Lean printer writes for the tree it read (policy: parenthesise an operand iff it binds less tightly than
+    its position requires, right operands of - and / and of * + strictly)?"""
+    L = ent.get("lean_expr")
+    if L is None or "runs" not in ent or not ent["runs"]:
+        return
+    h = ctx.hist
+    if "unsupported" in L:
+        h["expr_lines_outside_fragment"] = h.get("expr_lines_outside_fragment", 0) + 1
+        return
+    Rv = ent["runs"][0]
+    if Rv == "inexact" or "ok" not in Rv:
+        h["expr_text_not_evaluated"] = h.get("expr_text_not_evaluated", 0) + 1
+        return
+    if "noValue" in L:
+        ctx.add_drift(sc, Rv, L, f"{lang}: the Lean expression reader finds no value where the text has one{tag}")
+        return
+    vals = dict(map(tuple, L["values"]))
+    ret = ent["shape"]["ret"]
+    try:
+        Lv = {"ok": [C.num(Fraction(vals[n])) for n in ret]}
+    except KeyError as e:
+        Lv = {"err": ["NameError", str(e.args[0])]}
+    h[f"expr_texts_read_by_lean_{lang}"] = h.get(f"expr_texts_read_by_lean_{lang}", 0) + len(L["values"])
+    if Lv != Rv:
+        ctx.add_drift(sc, Rv, Lv, f"{lang}: Lean expression reader vs the evaluator of the emitted text{tag}")
+    if not all(L.get("treeValue", [])):
+        ctx.add_drift(sc, {"treeValue": True}, L["treeValue"], f"{lang}: E.eval of the parsed tree differs from the value read{tag}")
+    nd = sum(1 for f in L["reprint"] if not f)
+    if nd:
+        h[f"expr_parentheses_differ_{lang}"] = h.get(f"expr_parentheses_differ_{lang}", 0) + nd
+        smp = ctx.extra_cov.setdefault("expr_parentheses_differ_samples", [])
+        if len(smp) < 80:
+            smp += [[lang, t] for (k, t), f in zip(ent["lines"], L["reprint"]) if not f][:2]
+
+
 def judge_phase(ctx, case, R, M, extern=None, tag=""):
     feats = cg.features(case["content"])
     ctx.count({k: case[k] for k in ("content", "free", "states", "bad")}, f"{case.get('stratum', '?')}:{cg.shape_of(case['content'])}"
@@ -748,6 +805,7 @@ def judge_phase(ctx, case, R, M, extern=None, tag=""):
                 ctx.add_drift(sc, ent["shape"], Mg, f"{lang}: Lean generator fails where the code emits text")
             elif model_shape(Mg["ok"]) != ent["shape"]:
                 ctx.add_drift(sc, ent["shape"], model_shape(Mg["ok"]), f"{lang}: program shape{tag}")
+        judge_lean_expr(ctx, sc, lang, ent, tag)
         if lang == "rs" and py_trees:
             ent["rs_paren"] = any(py_trees.get(k) is not None and py_trees[k] != tr for k, tr in map(tuple, ent["trees"]))
         fid, in_model = classify(case, lang, ent, feats)
